@@ -6,7 +6,6 @@
 
 use crate::corpus;
 use crate::fam::{self, Family, V3, V5};
-use crate::gen::GenCfg;
 use crate::model::{fnv, hex_short};
 use crate::run::{CaseResult, Ctx, Env, Input, RunResult, Sub};
 use crate::sio::Step;
@@ -62,7 +61,7 @@ fn both(b: &[u8], origin: &str, ctx: &mut Ctx) -> CaseResult {
 
 fn case_tape(input: &Input, ctx: &mut Ctx) -> CaseResult {
     let mut t = Tape::new(input.tape());
-    let cfg = if ctx.thorough && t.chance(1, 6) { GenCfg::MEDIUM } else { GenCfg::SMALL };
+    let cfg = crate::gen::cfg_mix(&mut t, ctx.thorough);
     let (b, origin) = if t.flag() { corpus::gen_input::<V5>(&mut t, &cfg) } else { corpus::gen_input::<V3>(&mut t, &cfg) };
     both(&b, origin, ctx)
 }
